@@ -351,7 +351,7 @@ class ExprMixin:
                             nxt.append((s2, acc + [x]))
                         else:
                             fv = fresh(STR, "fmt")
-                            if isinstance(x, Val) and any(x.z.eq(u) for u in getattr(self, "uuid_terms", [])):
+                            if isinstance(x, Val) and len(x.t) == 1 and any(x.t[0].eq(u) for u in getattr(self, "uuid_terms", [])):
                                 fv.is_uuid = True
                             nxt.append((s2, acc + [fv]))
                 else:
@@ -595,6 +595,10 @@ class ExprMixin:
                     return set_lambda(a.sort.elem, lambda y: z3.Or(z3.Select(a.t[0], y), z3.Select(b.t[0], y)))
                 if isinstance(op, ast.Sub):
                     return set_lambda(a.sort.elem, lambda y: z3.And(z3.Select(a.t[0], y), z3.Not(z3.Select(b.t[0], y))))
+            if a.sort == OPAQUE and b.sort == OPAQUE and isinstance(op, (ast.Div, ast.Mult, ast.Add, ast.Sub)) \
+                    and isinstance(node.right, ast.Constant) and isinstance(node.right.value, float) and node.right.value != 0:
+                # float arithmetic with a non-zero literal: floats are not modelled, the result is an unconstrained opaque value
+                return fresh(OPAQUE, "float")
         raise Unsupported(node, f"binary op on {getattr(a, 'sort', a)} / {getattr(b, 'sort', b)}")
 
     # ---------------------------------------------------------------- subscript
